@@ -171,10 +171,23 @@ public:
         {
             // ---- B: burst of events at the highest rate a caller can produce (no time advance in between)
             int k = (int)p.get("burst", 20); Rng br(mix64((uint64_t)p.get("sliceseed"), 0xB0257));
-            std::vector<std::pair<int, int> > on; uint64_t w0 = g_tap.total;
+            std::vector<std::pair<int, int> > on;
+            // half of the bursts start with the release of notes that were already sounding: those key-offs are the oldest
+            // writes of the burst, i.e. the ones a bounded write queue between player and chip would lose first
+            std::vector<std::pair<int, int> > prelude;
+            if(br.chance(0.5))
+            {
+                int np = (int)br.range(1, 3);
+                for(int q = 0; q < np; ++q) { int c = 13 + q, n = (int)br.range(48, 84); opn2_rt_noteOn(R.dev, (OPN2_UInt8)c, (OPN2_UInt8)n, 127); prelude.push_back(std::make_pair(c, n)); }
+                R.render(0.05);
+                run.count("burst_starts_with_release_of_sounding_notes");
+            }
+            const bool panicInBurst = br.chance(0.4);   // a panic re-silences every chip channel and would mask writes lost earlier in the burst
+            uint64_t w0 = g_tap.total;
+            for(size_t q = 0; q < prelude.size(); ++q) opn2_rt_noteOff(R.dev, (OPN2_UInt8)prelude[q].first, (OPN2_UInt8)prelude[q].second);
             for(int i = 0; i < k; ++i)
             {
-                switch(br.weighted({ 30, 10, 25, 25, 2 }))
+                switch(br.weighted({ 30, 10, 25, 25, panicInBurst ? 2 : 0 }))
                 {
                 case 0: { int c = (int)br.below(8), n = (int)br.range(36, 96); opn2_rt_noteOn(R.dev, (OPN2_UInt8)c, (OPN2_UInt8)n, 127); on.push_back(std::make_pair(c, n)); break; }
                 case 1: if(!on.empty()) { size_t q = br.below(on.size()); opn2_rt_noteOff(R.dev, (OPN2_UInt8)on[q].first, (OPN2_UInt8)on[q].second); on.erase(on.begin() + (long)q); } break;
